@@ -17,6 +17,14 @@ pub struct Base {
     pub cols: (u64, u64),
 }
 
+impl Base {
+    /// n_queries * log_n_cosets of the base configuration (integers)
+    pub fn queries_security(&self) -> BigUint {
+        let g = |k: &str| self.cfg.get(k).and_then(|v| v.as_str()).and_then(|h| Felt::from_hex(h).ok()).map(|f| crate::kit::f2b(&f)).unwrap_or_default();
+        g("n_queries") * g("log_n_cosets")
+    }
+}
+
 fn tcfg(cols: Felt, height: Felt, nf: Felt) -> TableConfig {
     TableConfig { n_columns: cols, vector: VecConfig { height, n_verifier_friendly_commitment_layers: nf } }
 }
@@ -278,6 +286,8 @@ fn security_menu(b: &Base) -> Vec<(String, Felt)> {
         ("plus1".into(), b2f(&(&b.security + 1u32))),
         ("zero".into(), Felt::ZERO),
         ("p-1".into(), p_minus(1)),
+        // what the queries alone provide: the proof-of-work term is not needed to reach it
+        ("queries-only".into(), b2f(&b.queries_security())),
     ]
 }
 
@@ -334,7 +344,7 @@ pub fn run(ctx: &Ctx) -> Report {
         "exploration",
         "valid base configurations (synthetic family over every FRI layer count / bound corners / layout column counts, plus \
          the honest proofs' configurations) x {0, 1, 2(thorough)} deviations (every numeric field x boundary menu, every vector \
-         one short / one long / empty, consistent re-declarations modulo p) x security level {exact, +1, 0, p-1}; verdict of \
+         one short / one long / empty, consistent re-declarations modulo p) x security level {exact, +1, 0, p-1, queries * blow-up exponent alone}; verdict of \
          StarkConfig::validate compared with an integer predicate; non-trivial = at least one deviation or a non-default \
          security level; distinct by (base, deviation(s), security)",
     );
@@ -361,7 +371,7 @@ pub fn run(ctx: &Ctx) -> Report {
             for d in &devs {
                 let mut c = b.cfg.clone();
                 d.apply(&mut c);
-                for (st, s) in &secs[..2] {
+                for (st, s) in [&secs[0], &secs[1], &secs[2], &secs[4]] {
                     record(&mut r, &b.name, &format!("{:?}", d), &d.class(), st, &c, s, b.cols,
                         json!({"kind": "cfg", "cfg": c, "security": fhex(s), "cols": [b.cols.0, b.cols.1], "dev": [d.to_json()]}), 1);
                 }
@@ -369,7 +379,7 @@ pub fn run(ctx: &Ctx) -> Report {
             // consistent re-declarations (each counts as one deviation)
             for (name, c) in redeclarations(b) {
                 // security level recomputed on integers where the numbers are in range, else the base's
-                for (st, s) in &secs[..3] {
+                for (st, s) in [&secs[0], &secs[1], &secs[2], &secs[4]] {
                     record(&mut r, &b.name, &format!("redeclare {}", name), &format!("redeclare:{}", name.split('=').next().unwrap_or("")), st, &c, s, b.cols,
                         json!({"kind": "cfg", "cfg": c, "security": fhex(s), "cols": [b.cols.0, b.cols.1]}), 1);
                 }
